@@ -43,7 +43,7 @@ STEP_PROFILE = gen.profile(
     p_time_dependent=0.9, p_levels=0.6, p_temp=0.2, rows=(3, 12), p_continuous=0.15,
     p_ibm=0.3, p_kills=0.3, p_deact=0.5, p_lifetime=0.0, schemes=(("EF", 1), ("RK2", 2), ("RK4", 2)),
     p_metric_aniso=0.5, p_metric_vary=0.4, spacing=(1, 6), p_numrec=0.1, p_dense=0.1, p_pvars=0.1,
-    p_extra_time=0.0, p_lonlat_out=0.0, period=(1, 5),
+    p_extra_time=0.0, p_lonlat_out=0.0, period=(1, 5), p_huge_grid=0.004,
 )
 
 
@@ -264,6 +264,8 @@ def execute_step(sc) -> Result:
             f = gen.features(sc)
             if "anisotropic_metric" in f:
                 res.probes["anisotropic_metric"] += 1
+            if sc["grid"]["imax0"] * sc["grid"]["jmax0"] * truth.vert(sc)["N"] >= 2**21 and not sc["grid"].get("subgrid"):
+                res.probes["more_than_2**21_field_points"] += 1
             if "time_dependent_flow" in f:
                 res.probes["time_dependent"] += 1
     finally:
